@@ -4,6 +4,27 @@
 pub assume_specification<T: std::cmp::Ord + std::marker::Destruct> [std::cmp::max](a: T, b: T) -> (r: T)
     ensures T::obeys_cmp_spec() ==> r == (if a.cmp_spec(&b) is Greater { a } else { b });
 
+/// further std combinators and integer helpers without a vstd specification (their definitions)
+pub assume_specification<T: Default, E>[Result::<T, E>::unwrap_or_default](r: std::result::Result<T, E>) -> (out: T)
+    ensures r is Ok ==> out == r->Ok_0;
+pub assume_specification<T, F: FnOnce(T) -> bool>[Option::<T>::is_some_and](o: Option<T>, f: F) -> (out: bool)
+    requires o is Some ==> call_requires(f, (o->Some_0,)),
+    ensures o is None ==> !out, o is Some ==> call_ensures(f, (o->Some_0,), out);
+pub assume_specification<T, E, F: FnOnce(T) -> bool>[Result::<T, E>::is_ok_and](r: std::result::Result<T, E>, f: F) -> (out: bool)
+    requires r is Ok ==> call_requires(f, (r->Ok_0,)),
+    ensures r is Err ==> !out, r is Ok ==> call_ensures(f, (r->Ok_0,), out);
+pub assume_specification<T, E, F: FnOnce(E) -> T>[Result::<T, E>::unwrap_or_else](r: std::result::Result<T, E>, f: F) -> (out: T)
+    requires r is Err ==> call_requires(f, (r->Err_0,)),
+    ensures r is Ok ==> out == r->Ok_0, r is Err ==> call_ensures(f, (r->Err_0,), out);
+pub assume_specification[u64::div_ceil](a: u64, b: u64) -> (out: u64)
+    requires b > 0,
+    ensures out as int == (if a % b == 0 { (a / b) as int } else { (a / b) as int + 1 });
+pub assume_specification[usize::div_ceil](a: usize, b: usize) -> (out: usize)
+    requires b > 0,
+    ensures out as int == (if a % b == 0 { (a / b) as int } else { (a / b) as int + 1 });
+pub assume_specification[u64::abs_diff](a: u64, b: u64) -> (out: u64)
+    ensures out == (if a >= b { a - b } else { b - a });
+
 /// `drop(x)`: ends the value's life here (A-drop: destructors of the modelled types are accounted for where the contracts say so)
 pub assume_specification<T>[core::mem::drop::<T>](t: T);
 
